@@ -133,7 +133,14 @@ def read_parquet(
         indices_to_remove = []
         for col, indices in nested_structures.items():
             # Build a struct column from the columns
-            structs[col] = table.select(indices).to_struct_array()
+            leaves = table.select(indices)
+            struct = leaves.to_struct_array()
+            # to_struct_array() marks every row as present. A row whose nested value is missing in
+            # the file comes back with a null list in each of its leaves: keep it missing.
+            all_null = pa.compute.is_null(leaves.column(0))
+            for leaf in leaves.columns[1:]:
+                all_null = pa.compute.and_(all_null, pa.compute.is_null(leaf))
+            structs[col] = pa.compute.if_else(all_null, pa.scalar(None, type=struct.type), struct)
             indices_to_remove.extend(indices)
 
         # Remove the original columns in reverse order to avoid index shifting
